@@ -25,3 +25,100 @@ package gonnx
 //@          (name in m.parameters || (name in inputTensors && shapefits(inputTensors[name], $map[name]))))
 //@   loop 2 invariant len(shapeReceived) == len(shapeExpected) && shapeReceived == shapeof(tensor) &&
 //@          (forall d :: 0 <= d && d < $i ==> (!shapeExpected[d].IsDynamic ==> shapeExpected[d].Size == shapeReceived[d]))
+
+// ---------------------------------------------------------------------------------------
+// C18: loading
+
+//@ spec ver(p *onnx.OperatorSetIdProto) int = ite(p != nil, p.Version, 0)
+//@ spec opset13_is_max(mp *onnx.ModelProto) bool = (exists k :: 0 <= k && k < len(mp.OpsetImport) && ver(mp.OpsetImport[k]) == 13) &&
+//@        (forall k :: 0 <= k && k < len(mp.OpsetImport) ==> ver(mp.OpsetImport[k]) <= 13)
+
+//@ func ResolveOperatorGetter
+//@   tags C18
+//@   ensures supported: opsetID == 13 ==> err == nil && result == funcid("opset13.GetOperator")
+//@   ensures unsupported: opsetID != 13 ==> result == nil && err == ops__ErrUnsupportedOpsetVersion
+
+//@ func ModelProtoFromBytes
+//@   tags C18
+//@   ensures err != nil ==> result == nil
+//@   ensures err == nil ==> result != nil && fresh(result)
+
+//@ func NewModel
+//@   tags C18
+//@   requires mp != nil
+//@   scope unmarshalled_model: inits_non_nil(mp.Graph)
+//@   ensures unsupported_opset_refused: !opset13_is_max(mp) ==> result == nil && err != nil
+//@   ensures error_means_no_model: err != nil ==> result == nil
+//@   ensures built: err == nil ==> result != nil && fresh(result) && result.mp == mp && result.parameters != nil &&
+//@          result.GetOperator == funcid("opset13.GetOperator") && (forall key string :: key in result.parameters ==> result.parameters[key] != nil)
+//@   loop 1 invariant 0 <= i && i <= len(opsetImports) && opsetID >= 0 &&
+//@          (forall k :: 0 <= k && k < i ==> ver(opsetImports[k]) <= opsetID) &&
+//@          (opsetID == 0 || (exists k :: 0 <= k && k < i && ver(opsetImports[k]) == opsetID))
+
+//@ func NewModelFromBytes
+//@   tags C18
+//@   ensures err != nil ==> result == nil
+//@   ensures err == nil ==> result != nil
+
+// ---------------------------------------------------------------------------------------
+// C01 / C02 / C13 / C18: running a model
+
+//@ spec env_ok(t Tensors) bool = t != nil && (forall key string :: key in t ==> t[key] != nil)
+//@ spec gnodes(m *Model) []*onnx.NodeProto = m.mp.Graph.Node
+//@ spec optype(n *onnx.NodeProto) string = ite(n != nil, n.OpType, "")
+//@ spec gouts(m *Model) []*onnx.ValueInfoProto = m.mp.Graph.Output
+
+//@ func getInputTensorsForNode
+//@   tags C01
+//@   ensures gathered: err == nil ==> len(result) == len(names) && (forall k :: 0 <= k && k < len(names) ==>
+//@          (names[k] == "" ==> result[k] == nil) && (names[k] != "" ==> names[k] in tensors && result[k] == tensors[names[k]]))
+//@   ensures refused_iff_unknown: (err == nil) <==> (forall k :: 0 <= k && k < len(names) ==> names[k] == "" || names[k] in tensors)
+//@   ensures err != nil ==> result == nil
+//@   loop 1 invariant len(inputTensors) == $i && (inputTensors == nil || fresh(inputTensors)) &&
+//@          (forall k :: 0 <= k && k < $i ==> (names[k] == "" ==> inputTensors[k] == nil) && (names[k] != "" ==> names[k] in tensors && inputTensors[k] == tensors[names[k]]))
+
+//@ func setOutputTensorsOfNode
+//@   tags C01
+//@   requires tensors != nil
+//@   modifies tensors
+//@   ensures arity: (err == nil) <==> len(names) == len(outputTensors)
+//@   ensures bound_by_position: err == nil ==> (forall k :: 0 <= k && k < len(names) ==> names[k] in tensors &&
+//@          ((forall j :: k < j && j < len(names) ==> names[j] != names[k]) ==> tensors[names[k]] == outputTensors[k]))
+//@   ensures others_untouched: forall key string :: (err != nil || (forall k :: 0 <= k && k < len(names) ==> names[k] != key)) ==>
+//@          ((key in tensors) <==> old(key in tensors)) && tensors[key] == old(tensors[key])
+//@   ensures keeps_non_nil: err == nil && (forall k :: 0 <= k && k < len(outputTensors) ==> outputTensors[k] != nil) && old(env_ok(tensors)) ==> env_ok(tensors)
+//@   loop 1 invariant len(names) == len(outputTensors) && (forall k :: 0 <= k && k < $i ==> names[k] in tensors &&
+//@          ((forall j :: k < j && j < $i ==> names[j] != names[k]) ==> tensors[names[k]] == outputTensors[k]))
+//@   loop 1 invariant forall key string :: (forall k :: 0 <= k && k < $i ==> names[k] != key) ==>
+//@          ((key in tensors) <==> old(key in tensors)) && tensors[key] == old(tensors[key])
+//@   loop 1 invariant (forall k :: 0 <= k && k < len(outputTensors) ==> outputTensors[k] != nil) && old(env_ok(tensors)) ==> env_ok(tensors)
+
+//@ func (*Model).applyOp
+//@   tags C01,C02
+//@   requires m != nil && isoperator(op) && env_ok(tensors)
+//@   modifies tensors, opstate(op)
+//@   ensures env_ok(tensors)
+//@   ensures forall key string :: old(key in tensors) ==> key in tensors
+
+//@ func (*Model).Run
+//@   tags C01,C02,C13,C18
+//@   requires m != nil && m.mp != nil && m.mp.Graph != nil
+//@   scope loaded_model: m.GetOperator == funcid("opset13.GetOperator") && (forall key string :: key in m.parameters ==> m.parameters[key] != nil)
+//@   scope supplied_tensors_non_nil: forall name string :: name in inputs ==> inputs[name] != nil
+//@   ensures [C13] rejected_without_outputs: !accepts(m, inputs) ==> err != nil && result == nil
+//@   ensures [C18] every_node_resolved: err == nil ==> (forall k :: 0 <= k && k < len(gnodes(m)) ==> optype(gnodes(m)[k]) in opset13__operators13)
+//@   ensures [C01] outputs_present: err == nil ==> result != nil && fresh(result) &&
+//@          (forall j :: 0 <= j && j < len(gouts(m)) ==> vname(gouts(m)[j]) in result && result[vname(gouts(m)[j])] != nil)
+//@   ensures [C01] only_declared_outputs: err == nil ==> (forall key string :: key in result ==> (exists j :: 0 <= j && j < len(gouts(m)) && vname(gouts(m)[j]) == key))
+//@   ensures err != nil ==> result == nil
+//@   loop 1 invariant tensors != nil && fresh(tensors) && (forall key string :: key in tensors ==> key in $visited) &&
+//@          (forall key string :: key in $visited ==> key in m.parameters && key in tensors && tensors[key] == m.parameters[key])
+//@   loop 2 invariant tensors != nil && fresh(tensors) && env_ok(tensors) &&
+//@          (forall key string :: key in $visited ==> key in inputs && key in tensors && tensors[key] == inputs[key])
+//@   loop 3 establishes [C01] caller_input_overrides_initializer: forall key string :: key in inputs ==> key in tensors && tensors[key] == inputs[key]
+//@   loop 3 invariant tensors != nil && fresh(tensors) && env_ok(tensors) &&
+//@          (forall k :: 0 <= k && k < $i ==> optype(gnodes(m)[k]) in opset13__operators13)
+//@   loop 4 invariant outputTensors != nil && fresh(outputTensors) && env_ok(tensors) && tensors != outputTensors
+//@   loop 4 invariant forall j :: 0 <= j && j < $i ==> vname(gouts(m)[j]) in outputTensors
+//@   loop 4 invariant forall key string :: key in outputTensors ==> outputTensors[key] != nil
+//@   loop 4 invariant forall key string :: key in outputTensors ==> (exists j :: 0 <= j && j < $i && vname(gouts(m)[j]) == key)
